@@ -175,12 +175,20 @@ func genBookmarks(r *vlib.Rng) vlib.Case {
 
 // ------------------------------------------------------------------ documents
 
-// the box fields gatherLinksAndBookmarks reads, in pre-order
-func dumpBoxes(page *bo.PageBox) (string, int) {
+// the box fields gatherLinksAndBookmarks reads, in pre-order.  Geometry: the hit
+// area of the box (position, and [x, y, x+w, y+h] in float32); it is what the
+// implementation must store when no CSS transform applies to the box or an
+// ancestor (`exact` is false when a dumped box lies under a transform: the
+// check then compares names only, matrices are C17's).
+func dumpBoxes(page *bo.PageBox) (coq string, n int, exact bool) {
 	var items []string
-	var walk func(b bo.Box)
-	walk = func(b bo.Box) {
+	exact = true
+	var walk func(b bo.Box, underT bool)
+	walk = func(b bo.Box, underT bool) {
 		f := b.Box()
+		if document.VerifHasTransform(b) {
+			underT = true
+		}
 		anchor := string(f.Style.GetAnchor())
 		link := f.Style.GetLink()
 		ls := "None"
@@ -193,15 +201,23 @@ func dumpBoxes(page *bo.PageBox) (string, int) {
 		}
 		textline := bo.TextT.IsInstance(b) || bo.LineT.IsInstance(b)
 		if anchor != "" || !link.IsNone() || f.BookmarkLabel != "" {
-			items = append(items, fmt.Sprintf("(mkbox %s %s %s %s %s %s %s zero_pos zero_rect)", cName(anchor), ls, vlib.Bool(textline),
-				vlib.Bool(f.IsAttachment()), cName(f.BookmarkLabel), vlib.Z(level), vlib.Bool(f.Style.GetBookmarkState() == "open")))
+			x, y, w, h := bo.HitArea(b).Unpack()
+			px, py, pw, ph := Fl(x), Fl(y), Fl(w), Fl(h)
+			geom := "zero_pos zero_rect"
+			if underT || !vlib.Finite32(px, py, pw, ph, px+pw, py+ph) {
+				exact = false
+			} else {
+				geom = fmt.Sprintf("%s %s", cPos(px, py), cRect([4]Fl{px, py, px + pw, py + ph}))
+			}
+			items = append(items, fmt.Sprintf("(mkbox %s %s %s %s %s %s %s %s)", cName(anchor), ls, vlib.Bool(textline),
+				vlib.Bool(f.IsAttachment()), cName(f.BookmarkLabel), vlib.Z(level), vlib.Bool(f.Style.GetBookmarkState() == "open"), geom))
 		}
 		for _, c := range b.AllChildren() {
-			walk(c)
+			walk(c, underT)
 		}
 	}
-	walk(page)
-	return "[" + strings.Join(items, "; ") + "]", len(items)
+	walk(page, false)
+	return "[" + strings.Join(items, "; ") + "]", len(items), exact
 }
 
 type metaEl struct {
@@ -361,15 +377,20 @@ func runDocument(in docInput) (cases []vlib.Case, status string) {
 	// KGather: boxes of every page against what newPage gathered
 	{
 		var bs []string
-		nb := 0
+		nb, exact := 0, true
 		for _, p := range doc.Pages {
-			s, n := dumpBoxes(document.VerifPageBox(p))
+			s, n, ex := dumpBoxes(document.VerifPageBox(p))
 			bs = append(bs, s)
 			nb += n
+			exact = exact && ex
+		}
+		gtags := tags
+		if !exact {
+			gtags = append(append([]string(nil), tags...), "gather-names-only")
 		}
 		if finitePagesData(vp) {
-			cases = append(cases, vlib.Case{Kind: "gather", Coq: fmt.Sprintf("KGather %s %s", vlib.List(bs), mapS(vp, cPage)),
-				Desc: descBase(map[string]interface{}{"gathered": vp}), Tags: tags, Nontrivial: nb > 0})
+			cases = append(cases, vlib.Case{Kind: "gather", Coq: fmt.Sprintf("KGather %s %s %s", vlib.Bool(exact), vlib.List(bs), mapS(vp, cPage)),
+				Desc: descBase(map[string]interface{}{"gathered": vp, "geometry_compared": exact}), Tags: gtags, Nontrivial: nb > 0})
 		}
 	}
 
